@@ -216,28 +216,30 @@ type block struct {
 }
 
 type world struct {
-	rng     *hlib.Rng
-	net     *node.Net
-	nodes   []*node.Node
-	ips     []string
-	hostIDs []string
-	ks      string
-	stmts   []string
-	params  []int // "true" number of bind markers per statement
-	sess    *gocql.Session
-	policy  *pickPolicy
-	max     int
-	realIDs bool // ids are a function of (host, statement) as on a real server; otherwise unique per PREPARE answer
-	collide bool // every PREPARE answer of a host carries the same id
-	ev      chan hev
-	execs   []*xrec
-	flights []*frec
-	objFid  map[interface{}]int
-	running map[string]bool
-	nextErr int
-	idsFor  map[string][][]byte // host|stmt -> ids returned
-	creates map[string]int      // cache key -> PREPARE frames seen
-	gones   map[string]int      // cache key -> OnEvicted calls seen
+	rng        *hlib.Rng
+	net        *node.Net
+	nodes      []*node.Node
+	ips        []string
+	hostIDs    []string
+	ks         string
+	stmts      []string
+	params     []int // "true" number of bind markers per statement
+	sess       *gocql.Session
+	policy     *pickPolicy
+	max        int
+	realIDs    bool     // ids are a function of (host, statement) as on a real server; otherwise unique per PREPARE answer
+	collide    bool     // every PREPARE answer of a host carries the same id
+	tableKS    []string // per statement: keyspace named in the PREPARE answer's metadata
+	lockBudget int      // how many more PREPARE failures are delivered while the harness holds the cache's mutex
+	ev         chan hev
+	execs      []*xrec
+	flights    []*frec
+	objFid     map[interface{}]int
+	running    map[string]bool
+	nextErr    int
+	idsFor     map[string][][]byte // host|stmt -> ids returned
+	creates    map[string]int      // cache key -> PREPARE frames seen
+	gones      map[string]int      // cache key -> OnEvicted calls seen
 
 	// emission
 	names     map[string]string // byte string -> let-bound name
@@ -274,7 +276,11 @@ func (w *world) nm(s string) string {
 	}
 	n := fmt.Sprintf("b%d", len(w.names))
 	w.names[s] = n
-	w.nameDefs = append(w.nameDefs, fmt.Sprintf("let %s := %s in", n, zkey(s)))
+	if s == "" {
+		w.nameDefs = append(w.nameDefs, fmt.Sprintf("let %s := ([] : list Z) in", n))
+	} else {
+		w.nameDefs = append(w.nameDefs, fmt.Sprintf("let %s := %s in", n, zkey(s)))
+	}
 	return n
 }
 
@@ -296,8 +302,8 @@ func (w *world) fidOf(obj interface{}) int {
 
 // ---- set-up -------------------------------------------------------------------------------------
 
-func newWorld(rng *hlib.Rng, proto, nnodes, max, numConns int, stmts []string, params []int, realIDs bool) (*world, error) {
-	w := &world{rng: rng, max: max, ks: "ks1", stmts: stmts, params: params, realIDs: realIDs,
+func newWorld(rng *hlib.Rng, proto, nnodes, max, numConns int, ks string, stmts []string, params []int, realIDs bool) (*world, error) {
+	w := &world{rng: rng, max: max, ks: ks, stmts: stmts, params: params, realIDs: realIDs,
 		ev: make(chan hev, 4096), objFid: map[interface{}]int{}, running: map[string]bool{}, nextErr: 100,
 		idsFor: map[string][][]byte{}, creates: map[string]int{}, gones: map[string]int{},
 		names: map[string]string{}, blocks: map[int]*block{}, stats: map[string]int{}}
@@ -330,7 +336,17 @@ func newWorld(rng *hlib.Rng, proto, nnodes, max, numConns int, stmts []string, p
 			}
 		})
 	}
-	w.net.SetKeyspace(w.ks, node.Keyspace{Replication: node.SimpleStrategy(1), DurableWrites: true})
+	w.net.SetKeyspace("ks1", node.Keyspace{Replication: node.SimpleStrategy(1), DurableWrites: true})
+	w.net.SetKeyspace("ks2", node.Keyspace{Replication: node.SimpleStrategy(1), DurableWrites: true})
+	// the keyspace the statement's table lives in, as the PREPARE answer's metadata says: the session's own,
+	// or another one (a fully qualified table name; always so in a session without a default keyspace)
+	for range stmts {
+		tk := ks
+		if ks == "" || rng.Chance(35) {
+			tk = []string{"ks1", "ks2"}[rng.Intn(2)]
+		}
+		w.tableKS = append(w.tableKS, tk)
+	}
 	w.policy = &pickPolicy{hosts: map[string]*gocql.HostInfo{}}
 	cfg := gocql.NewCluster(w.ips[0])
 	cfg.Dialer = w.net.Dialer()
@@ -1085,7 +1101,7 @@ func (w *world) actAnswerPrepare(fr *frec, ok bool, cnt int) bool {
 				x.scriptedErr = true
 			}
 		}
-		fr.prepConn.Reply(fr.prepReq, node.Prepared{ID: fr.id, Bind: cols, Keyspace: w.ks, Table: "t", GlobalSpec: cnt > 0})
+		fr.prepConn.Reply(fr.prepReq, node.Prepared{ID: fr.id, Bind: cols, Keyspace: w.tableKS[fr.stmt], Table: "t", GlobalSpec: cnt > 0})
 	} else {
 		w.nextErr++
 		fr.errCode = w.nextErr
@@ -1102,6 +1118,13 @@ func (w *world) actAnswerPrepare(fr *frec, ok bool, cnt int) bool {
 			w.running[fmt.Sprintf("x%d", x.idx)] = true
 		}
 		fr.failKind = kind
+		locked := w.lockBudget > 0 && len(waiters) > 0 && w.rng.Chance(60)
+		if locked {
+			// freeze the cache: whoever needs preparedLRU.mu (the winner's remove, any lookup) waits
+			w.lockBudget--
+			w.stats["locked-failures"]++
+			gocql.VerifC14Lock(w.sess)
+		}
 		switch kind {
 		case 0, 3: // ERROR frame
 			fr.prepConn.Reply(fr.prepReq, node.Error{Code: node.ErrInvalid, Message: fmt.Sprintf("c14-err-%d PREPARE refused", fr.errCode)})
@@ -1109,6 +1132,9 @@ func (w *world) actAnswerPrepare(fr *frec, ok bool, cnt int) bool {
 			fr.prepConn.Reply(fr.prepReq, node.Void{})
 		case 2: // RESULT prepared cut short: parseFrame fails
 			fr.prepConn.Reply(fr.prepReq, node.RawMessage{Opcode: node.OpResult, Body: new(node.Buf).Int(node.KindPrepared).Short(9).Raw([]byte{1, 2}).B})
+		}
+		if locked {
+			w.lockedWindow(fr)
 		}
 	}
 	okS := w.settle()
@@ -1122,6 +1148,45 @@ func (w *world) actAnswerPrepare(fr *frec, ok bool, cnt int) bool {
 	}
 	w.endRound(fmt.Sprintf("after answering PREPARE #%d ok=%v", fr.fid, ok))
 	return okS
+}
+
+// lockedWindow: the PREPARE of flight fr has just been answered with a failure while the harness holds the
+// cache's mutex.  The failing goroutine must remove the entry (which needs the mutex) before it closes
+// flight.done, so until the harness unlocks nobody can have been told about the failure: anything that
+// happens in the window while the failed flight is still cached is a remembered failure being reported.
+const lockWindow = 150 * time.Millisecond
+
+func (w *world) lockedWindow(fr *frec) {
+	var early []hev
+	timer := time.NewTimer(lockWindow)
+	select {
+	case ev := <-w.ev:
+		early = append(early, ev)
+		// drain what else is there right now
+		for more := true; more; {
+			select {
+			case ev2 := <-w.ev:
+				early = append(early, ev2)
+			default:
+				more = false
+			}
+		}
+	case <-timer.C:
+	}
+	timer.Stop()
+	stillCached := false
+	for _, f := range gocql.VerifC14SnapshotLocked(w.sess) {
+		if f.Obj == fr.obj {
+			stillCached = true
+		}
+	}
+	gocql.VerifC14Unlock(w.sess)
+	for _, ev := range early {
+		if ev.kind == evReturn && stillCached {
+			w.violate("failure-reported-while-still-cached", fmt.Sprintf("executor %d was handed the failure of PREPARE #%d (%v) while that PREPARE is still in the cache: the next lookup of %q gets the remembered failure", ev.e, fr.fid, ev.err, fr.key))
+		}
+		w.handle(ev)
+	}
 }
 
 // how = 0 void, 1 error, 2 unprepared(id)
@@ -1212,6 +1277,8 @@ func (w *world) actCancel(x *xrec) bool {
 
 type scenCfg struct {
 	proto, nnodes, max, numConns, nstmts, nsteps, maxExec int
+	ks                                                    string
+	lockedFails                                           int
 	realIDs, writeFault, collide                          bool
 	pFail, pUnprep, pWrongCount, pGroup, pBatch           int
 	groupMax                                              int
@@ -1475,9 +1542,10 @@ func runScenario(seed uint64, c scenCfg) scenResult {
 		stmts = append(stmts, p.s)
 		params = append(params, p.n)
 	}
-	w, err := newWorld(rng, c.proto, c.nnodes, c.max, c.numConns, stmts, params, c.realIDs)
+	w, err := newWorld(rng, c.proto, c.nnodes, c.max, c.numConns, c.ks, stmts, params, c.realIDs)
 	if err == nil {
 		w.collide = c.collide
+		w.lockBudget = c.lockedFails
 	}
 	if err != nil {
 		return scenResult{err: err}
@@ -1501,7 +1569,7 @@ func scenarioCases(o *hlib.Out) []pcase {
 	seeds := make([]uint64, n)
 	for i := range cfgs {
 		r := o.Rng
-		c := scenCfg{proto: 4 + r.Intn(5)/4, nnodes: 1 + r.Intn(2), max: 1 + r.Intn(4), numConns: 1 + r.Intn(2), nstmts: 1 + r.Intn(4),
+		c := scenCfg{proto: 4 + r.Intn(5)/4, ks: []string{"ks1", "ks1", "ks1", ""}[r.Intn(4)], lockedFails: r.Intn(3), nnodes: 1 + r.Intn(2), max: 1 + r.Intn(4), numConns: 1 + r.Intn(2), nstmts: 1 + r.Intn(4),
 			nsteps: 25 + r.Intn(50), maxExec: 6 + r.Intn(20), realIDs: r.Chance(40),
 			pFail: 25, pUnprep: 30, pWrongCount: 12, pGroup: 25, pBatch: 20, groupMax: 8, writeFault: r.Chance(30), collide: r.Chance(6)}
 		switch i % 9 {
